@@ -112,6 +112,15 @@ def gen_cases(tier, rng):
                     toks += ['arg:%s:b%d:init=0' % (sp, n) for n, sp in enumerate(main)]
                     toks += ['S:%s:f=%d' % (sub, 0 if abbr else 0x80), 'arg:q:b3:init=0', A.argv_tok([w])]
                     cases.append(' '.join(toks))
+    # the key of a sub-group argument and the key of a plain argument of the same handler: one key, one argument -
+    # whichever of the two is defined first
+    for abbr in (True, False):
+        for plain, sub in (('output', 'output'), ('o,output', 'o'), ('o', 'o,output'), ('o,output', 'x,output'),
+                           ('o,output', 'o,out'), ('output', 'out'), ('o', 'x')):
+            for w in ('-o', '--output', '--out'):
+                f = 0 if abbr else 0x80
+                cases.append('H:f=%d arg:%s:b0:init=0 S:%s:f=%d arg:q:b3:init=0 %s' % (f, plain, sub, f, A.argv_tok([w])))
+                cases.append('H:f=%d arg:k:b1:init=0 S:%s:f=%d arg:q:b3:init=0 late:arg:%s:b0:init=0 %s' % (f, sub, f, plain, A.argv_tok([w])))
     # long keys in which a prefix occurs again further on (no-notify / --no, abab / --ab), alone and next to keys
     # that share the prefix: every definition order, every prefix of every key
     rep = ['no-notify', 'abab', 'abc', 'log-logfile', 'a,abab', 'no', 'log']
@@ -197,6 +206,10 @@ def spec_check(case, ir, mr):
             # belong to the sub-group handler
             defs.append((_parse(t.split(':')[1]), 'SUB', False))
             in_sub = True
+        elif t.startswith('late:arg:'):
+            # defined on the main handler after the sub-group argument was added
+            _, _, spec, slot, opts = t.split(':', 4)
+            defs.append((_parse(spec), slot, 'try' in opts.split('/')))
         elif t.startswith('arg:') and in_sub:
             continue
         elif t.startswith('arg:'):
@@ -291,10 +304,12 @@ def _subgroup_region(case):
             k = _parse(t.split(':')[1]); in_sub = True
             if isinstance(k, tuple) and k[1]:
                 sub.append(k[1])
-        elif t.startswith('arg:') and not in_sub:
-            k = _parse(t.split(':')[1])
+        elif (t.startswith('arg:') and not in_sub) or t.startswith('late:arg:'):
+            k = _parse(t.split(':')[2 if t.startswith('late:') else 1])
             if isinstance(k, tuple) and k[1]:
                 main.append(k[1])
+    if set(main) & set(sub):
+        return False          # the same long key in both containers: the definition itself must be refused
     return any(l.startswith(w) for l in main) and any(l.startswith(w) for l in sub)
 
 
